@@ -42,6 +42,9 @@ WILD_TEXTS = ["1e+16", "1E5", "1e3", "1.0", "1.", ".5", "0x10", " 12", "12 ", "+
 # what spreadsheet programs and float formatting make of big or fractional numbers
 WILD_NUMBERS = ["1e+16", "-3e+17", "1e+10", "1.2345678901234568e+16", "1E+16", "1e16", "2e+05", "1.5e+3", "12e+16",
                 "1e-05", "1.0", "100.0", "1.00", "5.", "1,0", "1.0E+3"]
+WILD_MOMENTS = ["2024-05-06 12:34:56", "1899-12-31 12:00:00", "1900-01-01 00:00:00", "12:34:56", "2024-05-06", "00:00:00",
+                "2024-05-06 00:00:00", "2024-05-06T12:34:56", "12:34", "45432", "45432.5", "0.5", "06.05.2024 00:00:00",
+                "12:34:56 00:00:00", "2024-05-06 12:34:56.789000"]
 STORAGES = ("csv", "ods", "xlsx")
 DATA_FORMATS = ("delimited", "ods", "excel")
 
@@ -55,14 +58,19 @@ def cases(draw):
     if len(rows) > header and draw(st.booleans()):
         # texts on which the reference model has no opinion (number-like, date-like, padded): whatever a field makes
         # of them, it has to be the same in all three formats.  DateTime columns are left alone (documented suffix).
-        columns = [i for i, f in enumerate(spec["fields"]) if f["type"] != "DateTime" and i < len(spec["fields"]) - 1
-                   or (f["type"] != "DateTime" and len(spec["fields"]) == 1)]
+        columns = [i for i, f in enumerate(spec["fields"]) if i < len(spec["fields"]) - 1 or len(spec["fields"]) == 1]
         for _ in range(draw(st.integers(1, 3)) if columns else 0):
             y = draw(st.integers(header, len(rows) - 1))
             x = draw(st.sampled_from(columns))
             if x < len(rows[y]):
-                numeric = spec["fields"][x]["type"] in ("Integer", "Decimal")
-                rows[y][x] = draw(st.sampled_from(WILD_NUMBERS if numeric and draw(st.booleans()) else WILD_TEXTS))
+                kind = spec["fields"][x]["type"]
+                if kind == "DateTime":
+                    # date / time-stamp spellings a spreadsheet produces; the one suffix that is documented to depend
+                    # on the format is recognised cell by cell in check_case and keeps the case out of the comparison
+                    rows[y][x] = draw(st.sampled_from(WILD_MOMENTS))
+                else:
+                    numeric = kind in ("Integer", "Decimal")
+                    rows[y][x] = draw(st.sampled_from(WILD_NUMBERS if numeric and draw(st.booleans()) else WILD_TEXTS))
     # a comment row of the CID with many characters that are item delimiters in some CSV dialect
     comment = draw(st.sampled_from(["", "", ";" * 400, "\t" * 400, "a;b\tc|d;" * 80, "x,y" * 5, ":" * 300]))
     return {"spec": spec, "rows": rows, "comment": comment}
